@@ -50,7 +50,7 @@ package parse
 //@   structure no-channel-ops
 
 //@ func parseImports
-//@   errprop-nil parse.parseString
+//@   errprop-nil parse.parseString parse.walkTree
 
 //@ func importForeign
 //@   requires input != nil
@@ -90,7 +90,7 @@ package parse
 
 // g.Wait() failing, a compiled-model merge failing or a syntax error all end the compile with (nil, err)
 //@ func (*Parser).parseSpecs
-//@   errprop-nil Group).Wait mergo.Merge parse.parseString
+//@   errprop-nil Group).Wait mergo.Merge parse.parseString parse.walkTree
 //@   structure no-channel-ops
 //@   assert @call:github.com/imdario/mergo.Merge [a-compiled-model-is-merged-only-if-it-decoded-without-error] v.err == nil
 //@   assert @store:F.parse.sourceCtxHelper.filename [recorded-file-is-the-file-being-parsed] stored == replaceAll(src.filename, "\\", "/")
@@ -103,6 +103,15 @@ package parse
 
 // the deferred recovery: if a panic was recovered, the named result err is set (non-nil)
 //@ func parseString$1
+//@   ensures [panic-becomes-error] ghost("recovered") ==> err != nil
+
+// A panic raised by the tree listener while the model is built (it assumes more about the tree than the grammar
+// guarantees) becomes an error naming the file, and nothing in the package walks a parse tree any other way.
+//@ func walkTree
+//@   structure recover-first
+//@   structure sole-caller-of github.com/antlr/antlr4/runtime/Go/antlr.(*ParseTreeWalker).Walk
+
+//@ func walkTree$1
 //@   ensures [panic-becomes-error] ghost("recovered") ==> err != nil
 
 // ---- C08: recorded source locations
